@@ -28,21 +28,30 @@ class DocTypeTransformer:
 
 
 class DocTypeIteratorTransformer(Generic[T]):
-    __slots__ = '_expression', '_to_wrapped_value'
+    __slots__ = '_expression', '_to_wrapped_value', '_path_descriptor'
 
     def __init__(self, expression, to_wrapped_value):
         self._expression = expression
         self._to_wrapped_value = to_wrapped_value
+        self._path_descriptor = None
+
+    def bind(self, path_descriptor: PathDescriptor) -> PathDescriptor:
+        self._path_descriptor = path_descriptor
+        return path_descriptor
 
     def to_wrapped_value(self, inner_iterator) -> DocumentIterator[T]:
         outer_iterator = DocumentIterator[T](inner_iterator, to_wrapped_value=self._to_wrapped_value)
         return outer_iterator
 
     def to_json_value(self, doc: Document):
-        vertex = get_vertex_from_path_builder(self._expression)
+        expression = self._expression
+        if expression is None:
+            # declared without a path: the descriptor resolved the default in __set_name__
+            expression = self._path_descriptor._expression
+        vertex = get_vertex_from_path_builder(expression)
         raise SetError(
             vertex,
-            f"The iterator descriptor for path '{self._expression}' does not support set",
+            f"The iterator descriptor for path '{expression}' does not support set",
             vertex.path_segment
         )
 
@@ -148,7 +157,7 @@ class DescriptorBuilder:
         doc_list_type_transformer = DocTypeIteratorTransformer(self._expression, doc_type_transformer.to_wrapped_value)
         self._to_wrapped_value = doc_list_type_transformer.to_wrapped_value
         self._to_json_value = doc_list_type_transformer.to_json_value
-        return self.__build_path_descriptor()
+        return doc_list_type_transformer.bind(self.__build_path_descriptor())
 
     def __build_doc_type_for_list(self) -> PathDescriptor:
         doc_type_transformer = DocTypeTransformer(self._type)
@@ -168,7 +177,7 @@ class DescriptorBuilder:
         self._to_wrapped_value = doc_list_type_transformer.to_wrapped_value
         self._to_json_value = doc_list_type_transformer.to_json_value
 
-        return self.__build_path_descriptor()
+        return doc_list_type_transformer.bind(self.__build_path_descriptor())
 
     def __custom_type_for_list(self) -> PathDescriptor:
         doc_list_type_transformer = DocTypeListTransformer(
